@@ -15,7 +15,7 @@ MCSpec == MCInit /\ [][MCNext]_<<vars, last>>
 \* (the kernel side of a yield is urgent as well in the exported behaviours: it normally completes within
 \* nanoseconds; the schedules in which it lingers are the subject of the dedicated F19 unit)
 MCNextU ==
-  IF \E a \in Actors : pc[a] \in InternalPcs
+  IF \E a \in Actors : pc[a] \in InternalPcs \/ (a = Owner /\ pc[a] = "join_wait" /\ armDone[cur[2]])
     THEN \E a \in Actors : Internal(a) /\ last' = <<"~", a, -1>>
     ELSE IF UrgentKernel /\ \E k \in Kernels : pc[k] # "idle"
     THEN \E k \in Kernels : Step(k) /\ last' = <<k, pc[k], Obs(k)>>
